@@ -328,7 +328,14 @@ pub fn header_palette() -> &'static Vec<MHeader> {
             )],
             ..h()
         }); // 29
-            // pairs that differ only INSIDE a structured extra-parameter value of the same shape
+            // headers that consist of ONE registered extension parameter only (CounterSignature0, kid
+    // context, x5bag, x5chain, x5t, x5u, CUPH nonce): nothing but that parameter makes them
+    // non-empty
+    for l in [9i64, 10, 32, 33, 34, 35, 256] {
+        v.push(MHeader { rest: vec![(MLabel::Int(l), MValue::Bytes(vec![1, 2, 3]))], ..h() });
+    }
+    v.push(MHeader { rest: vec![(MLabel::Int(10), MValue::Bytes(vec![4, 5, 6]))], ..h() });
+    // pairs that differ only INSIDE a structured extra-parameter value of the same shape
             // (an x5chain-like array of one certificate; a one-entry map): anything that summarises a
             // header by its shape would conflate them
         v.push(MHeader {
